@@ -53,7 +53,7 @@ Step ==
          exp  == Apply(pre, ln.req)
          chain == IF ln.reset THEN {} ELSE IF pre = s THEN {} ELSE {"chain"}
          diff == StateDiff(exp.s, post) \cup RespDiff(exp.resp, ln.resp) \cup chain
-         mon  == StepMonitors(pre, ln.req, ln.resp, post)
+         mon  == StepMonitors(pre, ln.req, ln.resp, post, ln.reset)
      IN /\ PrintT(<<"PV", ln.id, diff, mon, exp.resp.status, exp.resp.code>>)
         /\ (diff \cap {"body"} # {} => PrintT(<<"PVBODY", ln.id, exp.resp.body>>))
         /\ (diff \ {"status", "code", "body", "chain"} # {} => PrintT(<<"PVSTATE", ln.id, exp.s>>))
